@@ -86,6 +86,9 @@ def corrupt(cg, c, cors):
         elif kind in ("fanin_on_source", "fanin_on_x", "fanin_on_bbout"):
             want = {"fanin_on_source": ("input", "0", "1"), "fanin_on_x": ("x",), "fanin_on_bbout": ("bb_output",)}[kind]
             n = pick(lambda n: ty[n] in want)
+            if n is None and kind == "fanin_on_x":
+                g.add_node("zz_x", type="x", output=True)
+                n = "zz_x"
             d = pick(lambda m: ty[m] in G.ALL_GATES + ["input"])
             if n and d and n != d:
                 g.add_edge(d, n)
